@@ -26,19 +26,23 @@ def r_operand(t):
     raise Infra("bad operand " + repr(t))
 
 
-def r_chain(toks, brk):
-    """brk: index (into toks) of an operator before which the line is broken, or None"""
+SPACING = {None: (" ", " "), "tight": ("", ""), "left": (" ", ""), "right": ("", " ")}
+
+
+def r_chain(toks, brk, sp=None):
+    """brk: index (into toks) of an operator before which the line is broken, or None; sp: spacing around the operators"""
     out = []
+    before, after = SPACING[sp]
     for i, t in enumerate(toks):
         if i % 2 == 1:
-            out.append(("\n  " if brk == i else " ") + t + " ")
+            out.append(("\n  " if brk == i else before) + t + after)
         else:
             out.append(r_operand(t))
     return "".join(out)
 
 
-def render(name, toks, brk):
-    return "let %s %s =\n  %s\n\n" % (name, PARAMS, r_chain(toks, brk))
+def render(name, toks, brk, sp=None):
+    return "let %s %s =\n  %s\n\n" % (name, PARAMS, r_chain(toks, brk, sp))
 
 
 def transpile_chunk(ctx, wd, idx, funcs):
@@ -81,7 +85,7 @@ def run_rows(ctx, rows):
     wd = ctx.mkdir("c08")
     ctx.build("fc")
     fcutil.build_goast(ctx)
-    funcs = [("c%d" % i, render("c%d" % i, r["toks"], r.get("brk"))) for i, r in enumerate(rows)]
+    funcs = [("c%d" % i, render("c%d" % i, r["toks"], r.get("brk"), r.get("sp"))) for i, r in enumerate(rows)]
     chunks = [funcs[i:i + 1500] for i in range(0, len(funcs), 1500)]
     parts = core.pmap(lambda a: transpile_chunk(ctx, wd, a[0], a[1]), list(enumerate(chunks)))
     got = {}
@@ -91,9 +95,9 @@ def run_rows(ctx, rows):
     for i, r in enumerate(rows):
         g = got["c%d" % i]
         if isinstance(g, tuple):
-            lines.append({"toks": r["toks"], "brk": r.get("brk") or 0, "status": g[1], "got": ["atom", "<none>"], "src": funcs[i][1]})
+            lines.append({"toks": r["toks"], "brk": r.get("brk") or 0, "sp": r.get("sp"), "status": g[1], "got": ["atom", "<none>"], "src": funcs[i][1]})
         else:
-            lines.append({"toks": r["toks"], "brk": r.get("brk") or 0, "status": "ok", "got": g, "src": funcs[i][1]})
+            lines.append({"toks": r["toks"], "brk": r.get("brk") or 0, "sp": r.get("sp"), "status": "ok", "got": g, "src": funcs[i][1]})
     sd = ctx.spec_dir()
     core.write_ndjson(os.path.join(sd, "prec_trace.ndjson"), [{k: l[k] for k in ("toks", "status", "got")} for l in lines])
     r = ctx.tlc("FoPrecTrace", "FoPrecTrace.cfg", workers=1, timeout=3000, heap_gb=6)
@@ -106,7 +110,7 @@ def run_rows(ctx, rows):
 def run(ctx):
     ctx.rule = ("every chain of 1..4 operators over the 12 non-pipe operators between atoms (22,620 chains, exhaustive), plus applied / "
                 "not-prefixed / parenthesised operand variants on chains of 1-2 operators, pipe combinations, and variants with a line "
-                "break before an operator (quick: before the last operator of every chain with >= 2 operators, sampled by seed for "
+                "break before an operator, and chains of 1-2 operators over names and integer literals written without / with one-sided spaces around the operators (quick: before the last operator of every chain with >= 2 operators, sampled by seed for "
                 "4-operator chains; thorough: every break position); each is a Folang function transpiled by the real fc, the emitted "
                 "Go expression is parsed back and compared with the grouping of FoPrec.tla; distinct = distinct (chain, break); "
                 "non-trivial = >= 2 operators")
@@ -128,9 +132,21 @@ def run(ctx):
                     rows.append({"toks": c["toks"], "brk": positions[-1], "kind": c["kind"]})
                     if nops >= 2 and ctx.rng.random() < 0.3:
                         rows.append({"toks": c["toks"], "brk": positions[ctx.rng.randrange(len(positions))], "kind": c["kind"]})
+    # spacing around the operators does not matter (a-1 is a - 1): chains of 1-2 operators whose operands are names or integer literals,
+    # written without / with one-sided spaces.  (< > <= >= directly after a name would start type arguments: not in this family.)
+    tightops = ["+", "-", "*", "/", "=", "<>", "&&", "||"]
+    A = lambda x: ["atom", x]
+    for sp in ("tight", "left", "right"):
+        for op1 in tightops:
+            for l, r in (("a", "b"), ("a", "1"), ("2", "b"), ("3", "4")):
+                rows.append({"toks": [A(l), op1, A(r)], "brk": None, "kind": "spacing", "sp": sp})
+            for op2 in tightops:
+                for ops in (("a", "b", "c"), ("a", "1", "c"), ("a", "b", "2"), ("x", "1", "2")):
+                    rows.append({"toks": [A(ops[0]), op1, A(ops[1]), op2, A(ops[2])], "brk": None, "kind": "spacing", "sp": sp})
+        rows.append({"toks": [["app", "f", A("a")], "-", A("1")], "brk": None, "kind": "spacing", "sp": sp})
     lines, bad = run_rows(ctx, rows)
     for i, l in enumerate(lines):
-        ctx.case([l["toks"], l["brk"]], nontrivial=len(l["toks"]) >= 5,
+        ctx.case([l["toks"], l["brk"], l.get("sp")], nontrivial=len(l["toks"]) >= 5,
                  sample={"src": l["src"].split("=\n", 1)[1].strip(), "got": l["got"]} if i % 9973 == 11 else None)
     ctx.traces = len(lines)
     ctx.exhaustive = True
@@ -140,7 +156,7 @@ def run(ctx):
         l = lines[b - 1]
         ctx.violation("operator chain grouped differently from the table (or rejected): %s  status=%s  emitted tree=%s" % (
             l["src"].split("=\n", 1)[1].strip().replace("\n", "\\n"), l["status"], json.dumps(l["got"])),
-            {"row": {"toks": l["toks"], "brk": l["brk"] or None}, "recorded": l})
+            {"row": {"toks": l["toks"], "brk": l["brk"] or None, "sp": l.get("sp")}, "recorded": l})
     ctx.assumptions += ["the emitted Go expression is read back with go/parser; Go's own grouping of the emitted text is what runs",
                         "fc does not type-check operators, so every chain over int parameters is a legal input (calibrated: all accepted on the pinned tree)"]
 
